@@ -31,9 +31,11 @@ def execute(case):
     out = ac.run_cycles(case, WORK)
     if not out["hooks"]:
         raise ac.Machinery("SOUNDEVENT_VERIF hooks are not active (soundevent._verif missing or disabled)")
-    if out["cycles"] and out["cycles"][0]["saved"] == "" and not any(ev["e"] == "store" for ev in out["traces"][0]) \
+    # the hooks are considered missing only when a successful save recorded NO event at all; a save that records calls and
+    # hits but stores nothing (a registry shared with an earlier save) is behaviour and is judged by the validators
+    if out["cycles"] and out["cycles"][0]["saved"] == "" and not out["traces"][0] \
             and any(out["cycles"][0]["doc"]["defs"].values()):
-        raise ac.Machinery("no 'store' event was recorded although the document defines objects (hook removed?)")
+        raise ac.Machinery("no hook event was recorded although the document defines objects (hook removed?)")
     return out
 
 def trace_module(o):
